@@ -189,9 +189,15 @@ K("C07/insufficient", ["C07"], BD + "c07_insufficient_material", ["Board::is_ins
 K("C07/calc-outcome", ["C07", "C14"], BD + "c07_calc_outcome_precedence", ["Board::calc_outcome", "Board::calc_draw_simple"],
   "for all well-formed boards with one king each and either answer of has_legal_moves (imported contract): checkmate (won by the side not to move) iff no move and in check; stalemate iff no move and not in check; else insufficient material, else 75-move (clock >= 150), else 50-move (clock >= 100), else none",
   assumes=["C07/insufficient", "C16/check-queries/w", "C16/check-queries/b"] + TABLES)
-K("C11/try-from/accepts", ["C11", "C02", "C19"], BD + "c11_try_from_accepts_exactly_valid", ["<Board as TryFrom<RawBoard>>::try_from"],
+K("C11/try-from/accepts-one-query", ["C11", "C02", "C19"], BD + "c11_try_from_accepts_exactly_valid", ["<Board as TryFrom<RawBoard>>::try_from"],
   "for all raw boards: try_from is Ok iff (mark on the right rank, <= 16 men a side, exactly one king each, no pawn on rank 1/8, side not to move not in check); on Err the reported condition (with its square / colour) really holds",
-  assumes=ATT, timeout=3000, mem_gb=32, mem_est=12)
+  assumes=ATT, timeout=3000, mem_gb=32, mem_est=12, tier="thorough")
+K("C11/try-from/accepts", ["C11", "C02", "C19"], "board::verif_kani_c::c11_try_from_ok_iff_valid", ["<Board as TryFrom<RawBoard>>::try_from"],
+  "for all raw boards (13^64 placements, side, rights, mark, counters): try_from is Ok iff (mark on the right rank, <= 16 men a side, exactly one king each, no pawn on rank 1/8, side not to move not in check); RawBoard::zobrist_hash imported (plays no part in acceptance)",
+  assumes=ATT, timeout=2400, mem_gb=24, mem_est=8)
+K("C11/try-from/error-is-true", ["C11", "C02"], "board::verif_kani_c::c11_try_from_error_is_true", ["<Board as TryFrom<RawBoard>>::try_from"],
+  "for all raw boards: on Err the reported condition really holds, with the square / colour it carries (InvalidEnpassant: that mark, wrong rank; TooManyPieces / NoKing / TooManyKings: that colour; InvalidPawn: a pawn on rank 1/8 at that square; OpponentKingAttacked)",
+  assumes=ATT, timeout=2400, mem_gb=24, mem_est=8)
 K("C11/try-from/normalised", ["C11", "C02", "C05"], "board::verif_kani_c::c11_try_from_result_normalised_wf_hashed_v3", ["<Board as TryFrom<RawBoard>>::try_from"],
   "for all raw boards accepted: result == input except rights without king/rook at home and a mark without enemy pawn / with an occupied square behind it; derived sets well-formed at every square; stored hash == RawBoard::zobrist_hash of the stored raw board (callee imported by contract: a pure function of cells, side, rights and mark, instantiated with the projection onto an arbitrary witness square)",
   assumes=ATT + ["C05/scratch/zobrist-hash-shape"], timeout=1800)
@@ -593,7 +599,7 @@ _quick_for(r"^C07/calc-outcome$", ["C07", "C14"])
 _quick_for(r"^C09/", ["C09"])
 _quick_for(r"^C10/into-move/", ["C10"])
 _quick_for(r"^C10/text/", ["C10", "C12"])
-_quick_for(r"^C11/try-from/accepts$", ["C11"])
+_quick_for(r"^C11/try-from/(accepts|error-is-true)$", ["C11"])
 _quick_for(r"^C11/try-from/normalised$", ["C11", "C05"])
 _quick_for(r"^C16/", ["C16"])
 _quick_for(r"^C15/", ["C15"])
